@@ -82,6 +82,8 @@ pub enum PatList {
     Packedish(Vec<Vec<u8>>),
     /// a^k b families, nested suffixes (deep failure chains)
     Adversarial { kind: u8, k: u8, n: u8 },
+    /// one trie node with many children: prefix + distinct byte + tail
+    Fanout { prefix: Vec<u8>, n: u8, start: u8, tails: Vec<u8> },
 }
 
 #[derive(Clone, Copy, Debug)]
@@ -96,11 +98,13 @@ pub struct PatOpts {
     pub w_shapes: u32,
     /// weight of adversarial lists
     pub w_adversarial: u32,
+    /// weight of fan-out lists (a trie node with up to 255 children)
+    pub w_fanout: u32,
 }
 
 impl Default for PatOpts {
     fn default() -> PatOpts {
-        PatOpts { w_empty: 6, max_class: 1, long: false, w_shapes: 3, w_adversarial: 1 }
+        PatOpts { w_empty: 6, max_class: 1, long: false, w_shapes: 3, w_adversarial: 1, w_fanout: 0 }
     }
 }
 
@@ -205,6 +209,17 @@ fn adversarial_list() -> BoxedStrategy<PatList> {
         .boxed()
 }
 
+fn fanout_list() -> BoxedStrategy<PatList> {
+    (
+        vec(any::<u8>(), 0..=2),
+        prop_oneof![3 => 2u8..=12, 2 => 13u8..=127, 2 => 128u8..=255],
+        any::<u8>(),
+        vec(any::<u8>(), 0..=3),
+    )
+        .prop_map(|(prefix, n, start, tails)| PatList::Fanout { prefix, n, start, tails })
+        .boxed()
+}
+
 pub fn pat_list(o: PatOpts) -> BoxedStrategy<PatList> {
     let mut alts: Vec<(u32, BoxedStrategy<PatList>)> = vec![(10, general_list(o))];
     if o.w_shapes > 0 {
@@ -212,6 +227,9 @@ pub fn pat_list(o: PatOpts) -> BoxedStrategy<PatList> {
     }
     if o.w_adversarial > 0 {
         alts.push((o.w_adversarial, adversarial_list()));
+    }
+    if o.w_fanout > 0 {
+        alts.push((o.w_fanout, fanout_list()));
     }
     proptest::strategy::Union::new_weighted(alts).boxed()
 }
@@ -358,6 +376,22 @@ pub fn realize_patterns(list: &PatList, alpha: &[u8]) -> Vec<Vec<u8>> {
             let full = alphabet(if alpha.len() < 8 { ALPHA_TEXT } else { ALPHA_FULL });
             let a: &[u8] = if alpha.len() >= 8 { alpha } else { &full };
             raws.iter().map(|r| map_bytes(a, r)).collect()
+        }
+        PatList::Fanout { prefix, n, start, tails } => {
+            let prefix = map_bytes(alpha, prefix);
+            (0..*n as usize)
+                .map(|i| {
+                    let mut p = prefix.clone();
+                    p.push(start.wrapping_add(i as u8));
+                    if !tails.is_empty() {
+                        let t = tails[i % tails.len()];
+                        if t & 3 != 0 {
+                            p.push(pick(alpha, t));
+                        }
+                    }
+                    p
+                })
+                .collect()
         }
         PatList::Adversarial { kind, k, n } => {
             let (k, n) = (*k as usize, *n as usize);
@@ -540,13 +574,7 @@ pub fn realize_span(r: SpanRecipe, len: usize) -> (usize, usize) {
         }
         _ => {
             let e = idx(r.a, len + 1);
-            if e + 1 <= len + 1 && e < len {
-                (e + 1, e)
-            } else if len > 0 {
-                (len, len - 1)
-            } else {
-                (0, 0)
-            }
+            (e + 1, e)
         }
     }
 }
@@ -687,6 +715,7 @@ pub fn search_case(o: SearchOpts) -> BoxedStrategy<Case> {
                 PatList::RareBytes { .. } => "rarebytes",
                 PatList::Packedish(_) => "packedish",
                 PatList::Adversarial { .. } => "adversarial",
+                PatList::Fanout { .. } => "fanout",
             };
             Case {
                 prop: prop.to_string(),
